@@ -1,20 +1,18 @@
 // C14: template instantiation preserves meaning.
 //
-// E: templated grammars in five families (gen.go): P predicates (every predicate with <=3 primaries
+// Enumerated: templated grammars in five families (gen.go). P: every predicate with up to three
+// primaries (F, !F, F == "v", F != "v") joined by && and ||, in four placements. R1: every argument
+// form on a reference from a parameterless input. R2: every argument form x declaration style (global
+// or inline flags, defaults) through one templated nonterminal. R3: chains and recursion through three
+// templated nonterminals. L: lookahead flags propagated through up to two intermediate nonterminals.
 //
-//	over F, !F, F == "v", F != "v" joined by && and ||, in four placements), R1 every argument form
-//	from a parameterless input, R2 every argument form and declaration style (global / inline flags,
-//	defaults) through one templated nonterminal, R3 chains and recursion through three templated
-//	nonterminals, L lookahead flags propagated through <=2 intermediate nonterminals.
-//
-// O: ref.go evaluates the template denotationally to a plain grammar over instances (N, valuation) and
-//
-//	takes its bounded language (L=5). Observed: compiler.Compile, then for every nonterminal in
-//	grammar.Parser.Nonterms whose name is <template>[_<Flag>...] the language of its plain rules
-//	(grammar.Parser.Rules) must equal the denotation under the valuation the suffix encodes, the set
-//	of such names must be exactly the set of reachable instances, each input must be the instance with
-//	all parameters at their defaults, and grammars the description rejects must be rejected with the
-//	corresponding message.
+// Oracle (ref.go): the template is evaluated denotationally to a plain grammar over instances
+// (N, valuation) whose bounded language (L=5) is computed by extsem.PlainLangs. Observed through
+// compiler.Compile: for every nonterminal in grammar.Parser.Nonterms named <template>[_<Flag>...] the
+// language of its plain rules (grammar.Parser.Rules) must equal the denotation under the valuation the
+// suffix encodes; the set of such names must be exactly the set of instances reachable from the
+// inputs; every input must be the instance with all parameters at their defaults; and grammars the
+// description rejects must be rejected with the corresponding message.
 package main
 
 import (
@@ -157,6 +155,22 @@ func check(g *tgram) (v verdict) {
 			v.key = cls + ":" + site
 			v.what = fmt.Sprintf(format, args...) + "\n--- grammar ---\n" + text
 		}
+	}
+	if ref.errs["is never provided"] && !o.errs["is never provided"] {
+		// One root cause (see the final report): the diagnostic is lost; without another error the
+		// compiler then runs into log.Fatal during instantiation.
+		how := "other diagnostics were reported: [" + keys(o.errs) + "]"
+		if perr != nil {
+			how = "and compiler.Compile then ends the process with log.Fatal(\"" + fatalMessage(perr) + "\")"
+		} else if len(o.errs) == 0 {
+			how = "and the grammar compiled"
+		}
+		fail0 := func() {
+			v.key = "lookahead:never-provided-diagnostic-lost"
+			v.what = "a lookahead flag is used by a nonterminal that never receives it, but \"lookahead flag ... is never provided\" is not reported, " + how + "\n--- grammar ---\n" + text
+		}
+		fail0()
+		return
 	}
 	if perr != nil {
 		if m := fatalMessage(perr); m != "" {
@@ -327,13 +341,14 @@ func run(c *core.Ctx) {
 	calmDown()
 	c.Rule("five families of templated grammars, each enumerated completely over its stated dimensions (see gen.go): P predicates x placements, R1 argument " +
 		"forms from an input, R2 argument forms x declaration styles through one templated nonterminal, R3 chains/recursion through three, L lookahead flags. " +
-		"nontrivial = distinct (valuation, language) pairs of instantiated nonterminals with a non-empty language, over grammars that compile; " +
+		"nontrivial = distinct grammar texts that compile and whose instances (all compared) include one with a non-empty language; " +
 		"grammars the description rejects are counted separately and must be rejected with the matching message")
 	c.Assume("a choice whose alternatives are all disabled denotes the empty string (sides with syntax/templates.go doExpr; the statement is silent)")
 	c.Assume("lookahead flags default to false whatever their declared default; only `= false` and no default are generated")
 
 	var mu sync.Mutex
 	distinct := map[string]bool{}
+	texts := map[string]bool{}
 	var nRejected, nInst, nGrams int64
 	perFamily := map[string]int64{}
 	families := generators(c.Quick())
@@ -344,8 +359,10 @@ func run(c *core.Ctx) {
 		}
 		var batch []*tgram
 		flush := func() {
+			vs := make([]verdict, len(batch))
 			core.ParallelFor(len(batch), 16, func(i int) {
 				v := check(batch[i])
+				vs[i] = v
 				c.Eval(1)
 				mu.Lock()
 				nGrams++
@@ -354,14 +371,19 @@ func run(c *core.Ctx) {
 					nRejected++
 				}
 				nInst += int64(v.nInst)
+				if len(v.instances) > 0 {
+					texts[batch[i].text()] = true
+				}
 				for _, s := range v.instances {
 					distinct[s] = true
 				}
 				mu.Unlock()
+			})
+			for i, v := range vs { // in enumeration order: the recorded case of a key is its simplest one
 				if v.key != "" {
 					c.Violate(v.key, v.what, batch[i])
 				}
-			})
+			}
 			batch = batch[:0]
 		}
 		capped := false
@@ -388,7 +410,8 @@ func run(c *core.Ctx) {
 	}
 	c.Outcome("rejected-as-expected", nRejected)
 	c.Outcome("compiled", nGrams-nRejected)
-	c.Nontrivial(int64(len(distinct)))
+	c.Nontrivial(int64(len(texts)))
+	c.Set("distinct_valuation_language_pairs", len(distinct))
 	c.Set("grammars", nGrams)
 	c.Set("instances_compared", nInst)
 	c.Set("grammars_rejected_as_expected", nRejected)
